@@ -379,6 +379,229 @@ theorem C04_delay_from_list (l : List Int) (i : Nat) (d : Int) (h : sampleDelay 
   unfold sampleDelay at h
   exact List.mem_of_getElem? h
 
+/-! ### never later; natural end first; the first tag stays (every status) -/
+
+/-- **never later**: a repairable leak that is still active after `N` days either was never reached by
+a tag request on an active day, or its first tag request came on day `T` and fewer than
+`repair delay + reporting delay` days have passed since — a tagged leak is never left waiting beyond
+the configured delays -/
+theorem C04_never_later (p : Params) (hr : p.repairable = true) (ev : Nat → List TagEv) (N : Nat)
+    (hs : (run p ev N).status = .active) :
+    (∀ t : Nat, t < N → a p ≤ t → ev t = []) ∨
+    ∃ (T : Nat) (e : TagEv) (rest : List TagEv), T < N ∧ a p ≤ T ∧ ev T = e :: rest ∧
+      (∀ t : Nat, t < T → a p ≤ t → ev t = []) ∧ (N : Int) - T < p.repairDelay + e.trd := by
+  have hT := run_invT p hr ev N
+  have hI := run_inv p hr ev N
+  unfold InvT at hT
+  unfold Inv at hI
+  obtain ⟨h1, h2, h3, h4⟩ := hT
+  have hA := hI.2.1 hs
+  cases ht : (run p ev N).tagged
+  · left; exact h3 (Or.inr hs) ht
+  · right
+    have hne := hA.2.2.2.2.2.2.2 ht
+    cases hby : (run p ev N).by_ with
+    | none => exact absurd hby hne
+    | natural => exact absurd hby hA.2.2.2.1
+    | expire => exact absurd hby hA.2.2.2.2.1
+    | company c =>
+      obtain ⟨T, hTN, haT, _, ⟨e, rest, hev, _, htrd⟩, hno, hact, _⟩ := h4 c hby
+      have := hact hs
+      exact ⟨T, e, rest, hTN, haT, hev, hno, by rw [← htrd]; omega⟩
+
+/-- **the first tag stays**, whatever the status (waiting, repaired): the company on record is the
+issuer of the first tag request that reached the active leak, the reporting delay and the detection
+date are those of that request (direct projection of `run_invT`) -/
+theorem C04_first_tag_stays (p : Params) (hr : p.repairable = true) (ev : Nat → List TagEv) (N : Nat)
+    (c : Nat) (hc : (run p ev N).by_ = .company c) :
+    ∃ (T : Nat) (e : TagEv) (rest : List TagEv), T < N ∧ a p ≤ T ∧ ev T = e :: rest ∧ e.company = c ∧
+      (run p ev N).trd = e.trd ∧ (run p ev N).initDetect = some (T : Int) ∧
+      (∀ t : Nat, t < T → a p ≤ t → ev t = []) := by
+  obtain ⟨T, hT, haT, hdet, ⟨e, rest, hev, hec, htrd⟩, hno, _, _⟩ := (run_invT p hr ev N).2.2.2 c hc
+  exact ⟨T, e, rest, hT, haT, hev, hec, htrd, hdet, hno⟩
+
+theorem tags_status (p : Params) (d : Int) (evs : List TagEv) (s : State) :
+    (evs.foldl (fun s e => tag p d e s) s).status = s.status := by
+  induction evs generalizing s with
+  | nil => rfl
+  | cons e evs ih =>
+    simp only [List.foldl_cons]
+    rw [ih]; unfold tag detectRec; grind
+
+/-- history invariant for leaks that ended naturally -/
+def InvNF (p : Params) (ev : Nat → List TagEv) (s : State) : Prop :=
+  s.status = .repaired → s.by_ = .natural →
+    ∃ m : Nat, s.endDate = some (m : Int) ∧
+      ((∀ t : Nat, t < m → a p ≤ t → ev t = []) ∨
+       ∃ (T : Nat) (e : TagEv) (rest : List TagEv), T < m ∧ a p ≤ T ∧ ev T = e :: rest ∧
+         (∀ t : Nat, t < T → a p ≤ t → ev t = []) ∧
+         (m : Int) < T + atLeastOne (p.repairDelay + e.trd))
+
+theorem run_invNF (p : Params) (hr : p.repairable = true) (ev : Nat → List TagEv) (n : Nat) :
+    InvNF p ev (run p ev n) := by
+  induction n with
+  | zero => unfold InvNF run init; simp
+  | succ n ih =>
+    have hI := run_inv p hr ev n
+    have hTn := run_invT p hr ev n
+    have hA := activate_mid p n _ hI
+    have hT1 := activate_T p ev n _ hI hTn
+    have hM := tags_mid p n (ev n) _ hA
+    have hT2 := tags_mid_T p hr ev n _ hA hT1
+    have hst := tags_status p n (ev n) (activate p n (run p ev n))
+    simp only [run, day]
+    generalize hm : (ev n).foldl (fun s e => tag p n e s) (activate p n (run p ev n)) = m at hM hT2 hst
+    by_cases hact : m.status = .active
+    · -- the day's update decides
+      unfold InvMid at hM
+      obtain ⟨t1, t2, t3, t4⟩ := hT2
+      have hmid := hM.2.1 hact
+      have hb := start_add_b4 p
+      intro hs hby
+      by_cases ht : m.tagged = true
+      · -- tagged before: the natural end came strictly before the repair was due
+        have hne := hmid.2.2.2.2.2.2.2 ht
+        cases hbm : m.by_ with
+        | none => exact absurd hbm hne
+        | natural => exact absurd hbm hmid.2.2.2.1
+        | expire => exact absurd hbm hmid.2.2.2.2.1
+        | company c =>
+          obtain ⟨T, hT, haT, hdet, ⟨e, rest, hev, hec, htrd⟩, hno, hdst, _⟩ := t4 c hbm
+          have hd := (hdst hact).1
+          by_cases hrep : m.dst + 1 ≥ p.repairDelay + m.trd
+          · exfalso
+            have e1 : update p m = { m with activeDays := m.activeDays + 1, dst := m.dst + 1, status := .repaired, endDate := some (p.start + (m.activeDays + 1 + b4 p)) } := by
+              unfold update endedAt; simp [hact, hr, ht, hrep]
+            rw [e1] at hby; simp only at hby; rw [hbm] at hby; cases hby
+          · by_cases hnat : m.activeDays + 1 + b4 p ≥ p.nrd
+            · have e1 : update p m = { m with activeDays := m.activeDays + 1, dst := m.dst + 1, tagged := true, by_ := .natural, status := .repaired, endDate := some (p.start + (m.activeDays + 1 + b4 p)) } := by
+                unfold update endedAt; simp [hact, hr, ht, hrep, hnat]
+              rw [e1]
+              refine ⟨n + 1, ?_, Or.inr ⟨T, e, rest, by omega, haT, hev, hno, ?_⟩⟩
+              · simp only; congr 1; have := hmid.2.1; push_cast; omega
+              · unfold atLeastOne; rw [← htrd]; push_cast; split <;> omega
+            · exfalso
+              have e1 : update p m = toggle p { m with activeDays := m.activeDays + 1, dst := m.dst + 1 } := by
+                unfold update endedAt; simp [hact, hr, ht, hrep, hnat]
+              have f := toggle_frame p { m with activeDays := m.activeDays + 1, dst := m.dst + 1 }
+              rw [e1, f.1] at hs; simp only at hs; rw [hact] at hs; cases hs
+      · have htf : m.tagged = false := by cases h : m.tagged <;> simp_all
+        have hno := t3 (Or.inr hact) htf
+        by_cases hnat : m.activeDays + 1 + b4 p ≥ p.nrd
+        · have e1 : update p m = { m with activeDays := m.activeDays + 1, tagged := true, by_ := .natural, status := .repaired, endDate := some (p.start + (m.activeDays + 1 + b4 p)) } := by
+            unfold update endedAt; simp [hact, hr, htf, hnat]
+          rw [e1]
+          refine ⟨n + 1, ?_, Or.inl ?_⟩
+          · simp only; congr 1; have := hmid.2.1; push_cast; omega
+          · intro t htn hat
+            by_cases h : t < n
+            · exact hno.1 t h hat
+            · have : t = n := by omega
+              rw [this]; exact hno.2 hact
+        · exfalso
+          have e1 : update p m = toggle p { m with activeDays := m.activeDays + 1 } := by
+            unfold update endedAt; simp [hact, hr, htf, hnat]
+          have f := toggle_frame p { m with activeDays := m.activeDays + 1 }
+          rw [e1, f.1] at hs; simp only at hs; rw [hact] at hs; cases hs
+    · -- nothing happens to an emission that is not active: it was already in this state
+      have e1 : update p m = m := by unfold update; simp [hact]
+      rw [e1]
+      intro hs hby
+      have hrs : (run p ev n).status = .repaired := by
+        rw [hst] at hs
+        unfold activate at hs
+        split at hs
+        · simp at hs
+        · exact hs
+      have e2 : activate p n (run p ev n) = run p ev n := by unfold activate; simp [hrs]
+      have e3 : m = run p ev n := by
+        rw [← hm, e2]; exact tags_idem p n (ev n) _ (Or.inl (by rw [hrs]; decide))
+      rw [e3] at hby ⊢
+      exact ih hrs hby
+
+/-- **unless the natural end comes first**: a leak that ended `natural` ended on its natural end date
+`max start 0 + L`, and either no tag request reached it on any of its active days, or the first one
+came on day `T` and the natural end was *strictly* before `T + max 1 (repair delay + reporting
+delay)` (on a tie the program repair wins) -/
+theorem C04_natural_first (p : Params) (hr : p.repairable = true) (ev : Nat → List TagEv) (N : Nat)
+    (hs : (run p ev N).status = .repaired) (hby : (run p ev N).by_ = .natural) :
+    (run p ev N).endDate = some (a p + L p) ∧
+    ((∀ t : Nat, a p ≤ t → (t : Int) < a p + L p → ev t = []) ∨
+     ∃ (T : Nat) (e : TagEv) (rest : List TagEv), a p ≤ T ∧ (T : Int) < a p + L p ∧ ev T = e :: rest ∧
+       (∀ t : Nat, t < T → a p ≤ t → ev t = []) ∧
+       a p + L p < T + atLeastOne (p.repairDelay + e.trd)) := by
+  obtain ⟨m, hm, h⟩ := run_invNF p hr ev N hs hby
+  have hI := run_inv p hr ev N
+  unfold Inv at hI
+  have hR := hI.2.2.1 hs
+  have hL := hR.2.2.2.2.1 hby
+  have hend : (run p ev N).endDate = some (a p + L p) := by rw [hR.1, hL]
+  have hmL : (m : Int) = a p + L p := by rw [hm] at hend; injection hend
+  refine ⟨hend, ?_⟩
+  rcases h with h | ⟨T, e, rest, hTm, haT, hev, hno, hlt⟩
+  · left; intro t hat htl; exact h t (by omega) hat
+  · right; exact ⟨T, e, rest, haT, by omega, hev, hno, by omega⟩
+
+
+/-- the three theorems over the simulator's real day loop (tag requests mixed with detection-only events) -/
+theorem C04_never_later_E (p : Params) (hr : p.repairable = true) (ev : Nat → List Ev) (N : Nat)
+    (hs : (runE p ev N).status = .active) :
+    (∀ t : Nat, t < N → a p ≤ t → tagsOf (ev t) = []) ∨
+    ∃ (T : Nat) (e : TagEv) (rest : List TagEv), T < N ∧ a p ≤ T ∧ tagsOf (ev T) = e :: rest ∧
+      (∀ t : Nat, t < T → a p ≤ t → tagsOf (ev t) = []) ∧ (N : Int) - T < p.repairDelay + e.trd := by
+  have f := runE_fields p ev N
+  simp only at f
+  rw [f.1] at hs
+  exact C04_never_later p hr (fun d => tagsOf (ev d)) N hs
+
+theorem C04_natural_first_E (p : Params) (hr : p.repairable = true) (ev : Nat → List Ev) (N : Nat)
+    (hs : (runE p ev N).status = .repaired) (hby : (runE p ev N).by_ = .natural) :
+    (runE p ev N).endDate = some (a p + L p) ∧
+    ((∀ t : Nat, a p ≤ t → (t : Int) < a p + L p → tagsOf (ev t) = []) ∨
+     ∃ (T : Nat) (e : TagEv) (rest : List TagEv), a p ≤ T ∧ (T : Int) < a p + L p ∧
+       tagsOf (ev T) = e :: rest ∧ (∀ t : Nat, t < T → a p ≤ t → tagsOf (ev t) = []) ∧
+       a p + L p < T + atLeastOne (p.repairDelay + e.trd)) := by
+  have f := runE_fields p ev N
+  simp only at f
+  rw [f.1] at hs
+  rw [f.2.2.2.2.2.1] at hby
+  rw [f.2.2.2.2.2.2.1]
+  exact C04_natural_first p hr (fun d => tagsOf (ev d)) N hs hby
+
+theorem C04_first_tag_stays_E (p : Params) (hr : p.repairable = true) (ev : Nat → List Ev) (N : Nat)
+    (c : Nat) (hc : (runE p ev N).by_ = .company c) :
+    ∃ (T : Nat) (e : TagEv) (rest : List TagEv), T < N ∧ a p ≤ T ∧ tagsOf (ev T) = e :: rest ∧
+      e.company = c ∧ (runE p ev N).trd = e.trd ∧
+      (∀ t : Nat, t < T → a p ≤ t → tagsOf (ev t) = []) := by
+  have f := runE_fields p ev N
+  simp only at f
+  rw [f.2.2.2.2.2.1] at hc
+  rw [f.2.2.2.2.1]
+  obtain ⟨T, e, rest, hT, haT, hev, hec, htrd, _, hno⟩ :=
+    C04_first_tag_stays p hr (fun d => tagsOf (ev d)) N c hc
+  exact ⟨T, e, rest, hT, haT, hev, hec, htrd, hno⟩
+
+/-- every tag request a survey step issues (`tagEvs`, compared with the real
+`ComponentLevelMethod.survey_site` on every run) comes from a *completed* survey, concerns a component
+whose detection report carries a measured rate > 0, and carries the surveying method's own name and
+reporting delay -/
+theorem C04_tag_event_fields (m : Nat) (trd : Int) (complete : Bool) (dets : List (Nat × Int))
+    (x : Nat × TagEv) (h : x ∈ tagEvs m trd complete dets) :
+    complete = true ∧ x.2.company = m ∧ x.2.trd = trd ∧ ∃ r, (x.1, r) ∈ dets ∧ r > 0 := by
+  unfold tagEvs at h
+  simp only [List.mem_map] at h
+  obtain ⟨c, hc, hx⟩ := h
+  obtain ⟨h1, r, hr, hpos⟩ := C04_tag_needs_completed_survey complete dets c hc
+  subst hx
+  exact ⟨h1, rfl, rfl, r, hr, hpos⟩
+
+/-- an incomplete survey step issues no tag request and leaves the site's latest tagging survey date
+alone; a completed one moves it to the current day -/
+theorem C04_incomplete_survey_no_tags (m : Nat) (trd : Int) (dets : List (Nat × Int)) (prev cur : Int) :
+    tagEvs m trd false dets = [] ∧ latestTaggingSurvey false prev cur = prev ∧
+    latestTaggingSurvey true prev cur = cur := by
+  unfold tagEvs tagCalls latestTaggingSurvey; simp
+
 /-- non-vacuity: tagged on day 3 by company 2 (reporting delay 1, repair delay 2) → ends day 6 -/
 example :
     let p : Params := { start := 1, nrd := 30, repairDelay := 2, repairable := true,
@@ -387,6 +610,20 @@ example :
                                           else if d = 4 then [{ company := 5, trd := 0 }] else []
     (run p ev 10).status = .repaired ∧ (run p ev 10).by_ = .company 2 ∧
     (run p ev 10).endDate = some 6 ∧ (run p ev 10).initDetect = some 3 := by
+  decide +kernel
+
+/-- non-vacuity of `C04_never_later` (second alternative), `C04_natural_first` (second alternative) -/
+example :
+    let p : Params := { start := 0, nrd := 10, repairDelay := 5, repairable := true,
+                        intermittent := false, activeDur := 1, inactiveDur := 0 }
+    let ev : Nat → List TagEv := fun d => if d = 7 then [{ company := 1, trd := 1 }] else []
+    (run p ev 9).status = .active ∧ (run p ev 9).by_ = .company 1 ∧
+    (run p ev 20).status = .repaired ∧ (run p ev 20).by_ = .natural ∧ (run p ev 20).endDate = some 10 ∧
+    a p + L p < 7 + atLeastOne (p.repairDelay + 1) := by
+  decide +kernel
+
+example : tagEvs 3 2 true [(0, 5), (1, 0), (2, -3), (0, 7)] = [(0, ⟨3, 2⟩), (0, ⟨3, 2⟩)]
+    ∧ sampleDelay [4, 5, 6] 4 = some 5 := by
   decide +kernel
 
 end LdarModel.Emission
